@@ -41,6 +41,13 @@ VOCABULARY = {
     "Boolean", "Null", "Element", "Nothing", "AnyOf", "OneOf", "AllOf", "Not", "NotPassed",
 }
 
+ANCHORS = [
+    "statham.schema.parser:_parse_attribute_name",
+    "statham.schema.parser:_title_format",
+    "statham.schema.parser:_ParseState.dedupe",
+    "statham.schema.elements.meta:ObjectClassDict.__setitem__",
+]
+
 
 def plan(tier):
     if tier == "quick":
